@@ -433,7 +433,7 @@ func lpRejects(P *ir.Program, start *ssa.BasicBlock) (int, string) {
 // not following edges for which skip is true, is a return with a nil or
 // unknown error (or, if stopAt is non-nil, block stopAt) reachable?
 func lpAvoidReachesSuccess(P *ir.Program, from, avoid, stopAt *ssa.BasicBlock, within map[*ssa.BasicBlock]bool,
-	skip func(from, to *ssa.BasicBlock) bool) (bool, string) {
+	skip func(from, to *ssa.BasicBlock) bool, counts func(*ssa.Return) bool) (bool, string) {
 	if from == avoid {
 		return false, ""
 	}
@@ -463,7 +463,7 @@ func lpAvoidReachesSuccess(P *ir.Program, from, avoid, stopAt *ssa.BasicBlock, w
 			continue
 		}
 		r, ok := b.Instrs[len(b.Instrs)-1].(*ssa.Return)
-		if !ok {
+		if !ok || (counts != nil && !counts(r)) {
 			continue
 		}
 		if ei < 0 || ei >= len(r.Results) {
